@@ -36,6 +36,7 @@ import (
 	"github.com/emmansun/gmsm/sm9"
 	"github.com/emmansun/gmsm/smx509"
 	vh "github.com/emmansun/gmsm/verifhook"
+	"github.com/emmansun/gmsm/verifsync"
 	"github.com/emmansun/gmsm/zuc"
 
 	"verif/engine"
@@ -48,6 +49,7 @@ type acc struct {
 
 func newAcc() *acc { return &acc{h: sha256.New()} }
 func (a *acc) add(label string, b []byte, err error) {
+	verifsync.OpBoundary() // the threads are interleaved at operation granularity
 	if err != nil {
 		fmt.Fprintf(a.h, "%s=err:%v;", label, err)
 		a.errs = append(a.errs, label)
@@ -708,6 +710,30 @@ func s24() scenario {
 		in.threads = []func(){
 			func() { in.outs[0] = session(231, nil, nil) + "|" + session(233, nil, nil) },
 			func() { in.outs[1] = session(235, nil, nil) + "|" + session(237, []byte("explicit-A"), nil) },
+		}
+		return in
+	}}
+}
+
+
+// ---- S25: the order-field helpers (inverse, product, implicit signature) on two threads with scheduling points
+// between the assembly calls of their addition chains (cmd/mkc20overlay stmtYield): their temporaries are written by
+// assembly only, so sharing one between calls shows as a wrong result, not as a race report.
+
+func s25() scenario {
+	return scenario{name: "S25-sm2ec-order-field-helpers-two-threads", setup: func() *inst {
+		in := &inst{outs: make([]string, 2)}
+		op := func(seed int) string {
+			k1, k2, k3 := fixedScalar(byte(150+seed)), fixedScalar(byte(160+seed)), fixedScalar(byte(170+seed))
+			inv, e1 := vh.P256OrdInverse(k1)
+			prod, e2 := vh.P256OrdMul(k1, k2)
+			sig, e3 := vh.ImplicitSig(k3, k1, k2)
+			inv2, e4 := vh.P256OrdInverse(inv)
+			return fmt.Sprintf("%x/%x/%x/%x %v%v%v%v", inv, prod, sig, inv2, e1, e2, e3, e4)
+		}
+		in.threads = []func(){
+			func() { in.outs[0] = op(1) },
+			func() { in.outs[1] = op(2) },
 		}
 		return in
 	}}
